@@ -14,6 +14,35 @@ import os
 DEBUG = bool(os.environ.get('WAI_DEBUG'))
 
 
+def float_arith(op, a, b):
+    """Interval arithmetic on ('f', lo, hi); anything doubtful is the whole line."""
+    inf = float('inf')
+    al, ah, bl, bh = a[1], a[2], b[1], b[2]
+    try:
+        if op == '+':
+            r = (al + bl, ah + bh)
+        elif op == '-':
+            r = (al - bh, ah - bl)
+        elif op == '*':
+            c = [x * y if not ((x in (inf, -inf) and y == 0) or (y in (inf, -inf) and x == 0)) else 0.0 for x in (al, ah) for y in (bl, bh)]
+            r = (min(c), max(c))
+        elif op == '/':
+            if bl <= 0 <= bh:
+                return ('f', -inf, inf)
+            c = []
+            for x in (al, ah):
+                for y in (bl, bh):
+                    c.append(x / y if not (x in (inf, -inf) and y in (inf, -inf)) else 0.0)
+            r = (min(c), max(c))
+        else:
+            return ('f', -inf, inf)
+    except (OverflowError, ZeroDivisionError):
+        return ('f', -inf, inf)
+    if r[0] != r[0] or r[1] != r[1]:
+        return ('f', -inf, inf)
+    return ('f', r[0], r[1])
+
+
 class Budget(AnalysisBroken):
     pass
 
@@ -115,6 +144,10 @@ class Interp:
         self.oob = []                   # (index, size) of reads of constant tables with a concrete index outside the table
         self.thrown = []                # (where, path) of throw expressions reached
         self.diverged = []              # (loop, path): a loop head state that recurs with no decision left open
+        self.float_conv = []            # conversions of a floating value to an integer type that cannot hold its whole range (undefined)
+        self.const_wraps = []           # implicit conversions of a computed constant that lose high bits
+        self.truncs = []                # conversions of a linear value to an integer type that cannot hold its whole range
+        self.trunc_decisions = []       # branch decisions taken on such a converted value (narrowing conversions only)
         self.uninit_reads = []          # (location, where): scalar reads of storage that was allocated and never written
         self.oob_may = []               # (table, index value, (lo, hi), size, where): index range of a constant-table read leaves the table
         self.const_override = None      # qualified global name -> value: analyse the code for another value of a constant
@@ -575,6 +608,8 @@ class Interp:
             # a folded constant may depend on an overridden global: evaluate structurally
         elif 'cvs' in n:
             return [(st, C(int(n['cvs'])))]
+        elif 'fv' in n and k not in ('CallExpr',):
+            return [(st, ('f', float(n['fv']), float(n['fv'])))]
         m = getattr(self, 'ev_' + k, None)
         if m is None:
             if n.get('lv'):
@@ -697,6 +732,11 @@ class Interp:
                     out.append((s, R(0, 1) if tv is None else C(1 if tv else 0)))
                 else:
                     r_ = fit(v, t, s.sym) if is_int(v) else (v if v[0] == 'uninit' else TOP)
+                    if v[0] == 'c' and r_ != v and v[1] >= 0 and n['k'] == 'ImplicitCastExpr' and t and t.get('k') != 'bool':
+                        # a computed non-negative constant that an implicit conversion cannot keep (high bits lost)
+                        cw = (nloc(n), self.frames[-1].fn['q'] if self.frames else '?', v[1], r_[1] if r_[0] == 'c' else None, t.get('bits'), bool(t.get('sg')))
+                        if cw not in self.const_wraps:
+                            self.const_wraps.append(cw)
                     # a number typed by the user that is cut down to a narrower type is still "that number, as the narrower type
                     # sees it": keep a name for it (validation rules look for the name), with the range of the target type
                     if is_int(v) and v[0] == 'l' and v[1] == 0 and len(v[2]) == 1 and v[2][0][1] == 1 and str(v[2][0][0]).startswith('$atoi') \
@@ -706,6 +746,8 @@ class Interp:
                             nm_ = '%s>%s' % (v[2][0][0], (t or {}).get('bits'))
                             s.sym.setdefault(nm_, tr_)
                             r_ = sym(nm_)
+                    if is_int(v) and v[0] == 'l' and v[2] and r_ == TOP and t and t.get('bits') and t.get('k') != 'bool':
+                        r_ = self._name_truncation(s, v, t, n, r_)
                     out.append((s, r_))
             return out
         if ck == 'PointerToBoolean':
@@ -719,7 +761,33 @@ class Interp:
         if ck == 'ToVoid':
             return [(s, TOP) for s, v in self.ev(e, st, fr)]
         if ck in ('IntegralToFloating', 'FloatingCast', 'FloatingToIntegral', 'FloatingToBoolean'):
-            return [(s, TOP if ck == 'FloatingToIntegral' else ('opaque', 'float')) for s, v in self.ev(e, st, fr)]
+            out = []
+            for s, v in self.ev(e, st, fr):
+                if ck == 'IntegralToFloating':
+                    r_ = rng(v, s.sym, self.T(e)) if is_int(v) else None
+                    if r_ is None and is_int(v):
+                        r_ = type_range(self.T(e))
+                    out.append((s, ('f', float(r_[0]), float(r_[1])) if r_ is not None else ('opaque', 'float')))
+                elif ck == 'FloatingCast':
+                    out.append((s, v if v[0] == 'f' else ('opaque', 'float')))
+                elif ck == 'FloatingToIntegral':
+                    t_ = self.T(n)
+                    tr_ = type_range(t_) if t_ else None
+                    if v[0] == 'f' and tr_ is not None:
+                        if v[1] == v[1] and v[2] == v[2] and v[1] > tr_[0] - 1 and v[2] < tr_[1] + 1:
+                            lo_, hi_ = int(v[1]), int(v[2])
+                            out.append((s, C(lo_) if lo_ == hi_ else R(lo_, hi_)))
+                        else:
+                            # [conv.fpint]: the behaviour is undefined if the truncated value cannot be represented in the destination type
+                            w_ = (nloc(n), self.frames[-1].fn['q'] if self.frames else '?', v[1], v[2], t_.get('bits'), bool(t_.get('sg')))
+                            if w_ not in self.float_conv:
+                                self.float_conv.append(w_)
+                            out.append((s, TOP))
+                    else:
+                        out.append((s, TOP))
+                else:
+                    out.append((s, R(0, 1)))
+            return out
         if ck in ('IntegralToPointer',):
             return [(s, ('ptop', 'int2ptr', True)) for s, v in self.ev(e, st, fr)]
         if ck in ('PointerToIntegral',):
@@ -855,6 +923,7 @@ class Interp:
                             out.append((s2, truthv))
                     continue
                 self.stats['forks'] += 1
+                self._trunc_decision(s, n, a, b)
                 for truthv in (True, False):
                     s2 = s.copy()
                     ok = self.refine(s2, fr, n['lhs'], n['rhs'], a, b, n['op'] if truthv else NEG[n['op']])
@@ -863,6 +932,48 @@ class Interp:
                         out.append((s2, truthv))
             return out
         return self._cond_value(n, st, fr, n0)
+
+    def _name_truncation(self, s, v, t, n, r_, arith=False):
+        """v (linear over named symbols) is converted to a type that cannot hold its whole range: the result is 'v as the type
+        sees it', a named unknown with the range of the type.  Narrowing ones (fewer bits than the source computation, or a
+        sign change) are remembered so that a rule can ask whether such a value ever decided a branch; a wrap inside unsigned
+        arithmetic of the same width (a - b in size_t) is named too but is never reported by itself."""
+        if any(str(sy).startswith('$w') for sy, _ in v[2]):
+            return r_       # a widened loop value has no range of its own: nothing is learnt by naming its conversion
+        vr = rng(v, s.sym, None)
+        tr_ = type_range(t)
+        if vr is None or tr_ is None or (tr_[0] <= vr[0] and vr[1] <= tr_[1]):
+            return r_
+        et = self.T(n.get('e')) if isinstance(n.get('e'), dict) and not arith else None
+        sb = (et or {}).get('bits') or 64
+        if arith:
+            # the arithmetic itself leaves the type: modular for unsigned types, undefined (in practice a wrap) for signed ones
+            et, sb = {'bits': t['bits'], 'sg': False}, t['bits']
+        chained = any(str(sy).startswith('$tr') and dict(s.comps.get(('trunc', sy)) or ()).get('narrowing') for sy, _ in v[2])
+        narrowing = t['bits'] < sb or (t['bits'] == sb and bool(t.get('sg')) != bool((et or {}).get('sg')) and t.get('sg')) or chained
+        nm = '$tr%s' % n.get('_id')
+        roots = set()
+        for sy, _ in v[2]:
+            up = dict(s.comps.get(('trunc', sy)) or ()) if str(sy).startswith('$tr') else None
+            roots |= set(up['syms']) if up else {str(sy)}
+        info = {'where': nloc(n), 'fn': self.frames[-1].fn['q'] if self.frames else '?', 'expr': show(v), 'range': vr, 'syms': tuple(sorted(roots)),
+                'bits': t['bits'], 'signed': bool(t.get('sg')), 'narrowing': narrowing, 'arith': arith}
+        s.sym[nm] = tr_
+        s.comps[('trunc', nm)] = tuple(sorted(info.items()))
+        if info not in self.truncs:
+            self.truncs.append(info)
+        return sym(nm)
+
+    def _trunc_decision(self, s, n, a, b):
+        for x in (a, b):
+            if is_int(x) and x[0] == 'l':
+                for sy, _ in x[2]:
+                    info = dict(s.comps.get(('trunc', sy)) or ()) if str(sy).startswith('$tr') else None
+                    if info and info['narrowing']:
+                        d = dict(info, decided_at=nloc(n), decided_in=self.frames[-1].fn['q'] if self.frames else '?')
+                        if d not in self.trunc_decisions:
+                            self.trunc_decisions.append(d)
+                        s.comps[('trdec', sy)] = nloc(n)
 
     def _lookup_partition(self, s, fr, vn, const, op):
         """vn is a load table[x] of a fully known constant table with x one ranged symbol: the sets of values of x for which
@@ -1078,9 +1189,17 @@ class Interp:
                 if not isinstance(x, str) and not isinstance(y, str):
                     return binop('-', C(x) if isinstance(x, int) else x, C(y) if isinstance(y, int) else y, s.sym)
             return TOP
+        if a[0] == 'f' and b[0] == 'f':
+            return float_arith(op, a, b)
+        if a[0] in ('f', 'opaque') or b[0] in ('f', 'opaque'):
+            return ('opaque', 'float') if (t or {}).get('k') == 'float' else TOP
         if not is_int(a) or not is_int(b):
             return TOP
-        return fit(binop(op, a, b, s.sym, t), t, s.sym)
+        raw = binop(op, a, b, s.sym, t)
+        r_ = fit(raw, t, s.sym)
+        if r_ == TOP and n is not None and is_int(raw) and raw[0] == 'l' and raw[2] and t and t.get('bits') and t.get('k') != 'bool':
+            r_ = self._name_truncation(s, raw, t, n, r_, arith=True)
+        return r_
 
     def ev_CompoundAssignOperator(self, n, st, fr):
         op = n['op'][:-1]
@@ -1100,6 +1219,16 @@ class Interp:
         return out
 
     def ev_ConditionalOperator(self, n, st, fr):
+        if getattr(self, 'join_conditionals', False) and (self.T(n) or {}).get('k') in ('int', 'bool', 'enum'):
+            # effect analyses that do not care which arm is taken: one state, the join of the two integer values
+            # (both arms are evaluated, so listeners see the reads of both)
+            outs = self.cond(n['cond'], st.copy(), fr)
+            if len(outs) == 2 and outs[0][1] != outs[1][1]:
+                ra = self.ev(n['then'], st, fr)
+                if len(ra) == 1:
+                    rb = self.ev(n['else'], ra[0][0], fr)
+                    if len(rb) == 1 and is_int(ra[0][1]) and is_int(rb[0][1]):
+                        return [(rb[0][0], join(ra[0][1], rb[0][1], rb[0][0].sym))]
         out = []
         for s, b in self.cond(n['cond'], st, fr):
             out += self.ev(n['then'] if b else n['else'], s, fr)
